@@ -270,13 +270,13 @@ class Spec(core.PropSpec):
             try:
                 with main.on_cpu():
                     delivered = list(Ld(ds, **kw))
-            except InjectedReadError:
-                # the storage failed while a worker fetched a batch: the epoch is lost (that is allowed); later epochs in fresh
-                # workers must be right again
-                out.count("fault:transient_read_error_in_root")
-                out.ev("io-error", ei)
-                continue
             except Exception as e:
+                if core.caused_by(e, InjectedReadError):
+                    # the storage failed while a worker fetched a batch: the epoch is lost (that is allowed); later epochs in
+                    # fresh workers must be right again
+                    out.count("fault:transient_read_error_in_root")
+                    out.ev("io-error", ei)
+                    continue
                 if isinstance(e, AssertionError):
                     # an assertion that a fresh single access of the same index trips as well is a refusal of the
                     # stack/mode combination, not a history effect
